@@ -170,7 +170,9 @@ func (m *c36Model) enabled() []c36Op {
 	}
 	ops = append(ops, c36Op{Op: "adv"})
 	for id := 1; id <= 2; id++ {
-		if m.T[id].Status == 1 {
+		// also before the task starts: the tracer keeps what it is told about
+		// a task it has not seen start yet and records it with the task
+		if m.T[id].Status == 1 || (m.T[id].Status == 0 && len(m.T[id].Tags)+len(m.T[id].Ms) < 2) {
 			ops = append(ops, c36Op{Op: "tag", ID: id}, c36Op{Op: "ms", ID: id})
 		}
 	}
@@ -260,6 +262,8 @@ func (m *c36Model) key() string {
 		fmt.Fprintf(&sb, " | %d", t.Status)
 		if t.Status == 1 {
 			fmt.Fprintf(&sb, " s%d %s g%v m%v", t.Start, t.Why, t.Tags, t.Ms)
+		} else if t.Status == 0 && len(t.Tags)+len(t.Ms) > 0 {
+			fmt.Fprintf(&sb, " early g%v m%v", t.Tags, t.Ms)
 		}
 	}
 	return sb.String()
@@ -466,7 +470,7 @@ func init() {
 		ID:    "C36",
 		Level: "model_checking",
 		Rule: "explicit-state BFS over histories of {StartTask(id), EndTask(id), AddTaskTag(id), AddMilestone(id) at the current instant, StartTracing, StopTracing, advance clock by 1} for task IDs {1,2} (task 2 is a child of task 1) to depth 7 (quick) / 10 (thorough), " +
-			"each history followed by Terminate, on the real DBTracer over an in-memory recording DataRecorder and a settable TimeTeller. Guards: an ID is started at most once, ended/tagged/milestoned only while running, StartTracing only while off, StopTracing only while on. " +
+			"each history followed by Terminate, on the real DBTracer over an in-memory recording DataRecorder and a settable TimeTeller. Guards: an ID is started at most once, ended only while running, tagged/milestoned while running or (at most twice) before it starts, StartTracing only while off, StopTracing only while on. " +
 			"After every call the rows newly inserted into trace/tag/milestone/daisen$segments are compared with the model: a trace row (all seven fields) exactly when an ending task was running at some call point while tracing was on; its tags all once; exactly one of its milestones per instant; one segment [start,stop] per window incl. the one closed by Terminate; nothing else. " +
 			"state = clock, tracing flag, window start, per task status/start/marked/tags/milestones.",
 		MinOutcomes: 8,
